@@ -447,7 +447,7 @@ class QueryFacet(FacetType):
                     yield qname
                     found = True
             if not found:
-                yield None
+                yield self.other
 
 
 class RangeFacet(QueryFacet):
